@@ -237,6 +237,10 @@ func inlineRound(abs string, env []string, overlay map[string][]byte, fresh []st
 				normNotes = append(normNotes, fmt.Sprintf("%s left as is: %s", name, why))
 				continue
 			}
+			if lastOwnLabels > 0 && len(uses[h]) > 1 {
+				normNotes = append(normNotes, fmt.Sprintf("%s left as is: carries labels of an inlined helper and is called %d times", name, len(uses[h])))
+				continue
+			}
 			if len(uses[h]) == 0 || len(uses[h]) > 6 {
 				normNotes = append(normNotes, fmt.Sprintf("%s left as is: %d references", name, len(uses[h])))
 				continue
@@ -330,6 +334,14 @@ func inlineRound(abs string, env []string, overlay map[string][]byte, fresh []st
 	return total, next
 }
 
+// lastOwnLabels: labels of an earlier inlining round inside the helper just examined (unique in the
+// whole tree, so the helper can be spliced once — not twice into the same function).
+var lastOwnLabels int
+
+func isInlLabel(n string) bool {
+	return strings.HasPrefix(n, "inl") && strings.HasSuffix(n, "End")
+}
+
 func byObjKeys[T any](m map[types.Object]T) map[types.Object]bool {
 	out := map[types.Object]bool{}
 	for k := range m {
@@ -360,14 +372,20 @@ func helperShapeProblem(fd *ast.FuncDecl, info *types.Info, freshObjs map[types.
 		}
 	}
 	why := ""
+	ownLabels := 0
+	defer func() { lastOwnLabels = ownLabels }()
 	ast.Inspect(fd.Body, func(n ast.Node) bool {
 		switch x := n.(type) {
 		case *ast.DeferStmt:
 			why = "uses defer"
 		case *ast.LabeledStmt:
-			why = "declares a label"
+			if !isInlLabel(x.Label.Name) {
+				why = "declares a label"
+			} else {
+				ownLabels++
+			}
 		case *ast.BranchStmt:
-			if x.Tok == token.GOTO {
+			if x.Tok == token.GOTO && (x.Label == nil || !isInlLabel(x.Label.Name)) {
 				why = "uses goto"
 			}
 		case *ast.CallExpr:
